@@ -768,7 +768,7 @@ UNINIT_EXPRS = (
         'spec.compose(fresh)', 'spec == fresh', 'spec.broadcast_to_common_suffix(fresh)', 'spec.is_prefix(fresh)',
         'optree.tree_unflatten(fresh, [1])', 'optree.treespec_tuple([fresh])', 'optree.tree_transpose(spec, fresh, (1, 2, 3))',
         'optree.treespec_from_collection({"a": fresh})')]
-    + [('PyTreeIter', 'iter', e) for e in ('next(fresh)', 'list(fresh)', 'iter(fresh)')]
+    + [('PyTreeIter', 'iter', e) for e in ('next(fresh)', 'list(fresh)', '[x for x in fresh]', 'fresh.__next__()')]
 )
 
 
@@ -858,7 +858,7 @@ def args_cases(tier, seed):
 def uninit_cases(tier):
     cases = []
     for cls, cat, expr in UNINIT_EXPRS:
-        p = {'cls': cls, 'expr': expr, 'must_raise': expr != 'iter(fresh)', 'entry_point': cat}
+        p = {'cls': cls, 'expr': expr, 'must_raise': True, 'entry_point': cat}
         cases.append((f'uninit/{cls}/{expr}', _script(p, _UNINIT_BODY), p))
     return cases
 
@@ -1258,19 +1258,24 @@ def run(tier: str, seed: int) -> BoundedReport:
             if o.status == 'harness':
                 key = 'C16.unexpected_exception'
             what = f'{cid}: {o.status} ({U.short(o.detail, 400)})'
+            if key == 'C16.uninitialized_instance' and o.status not in ('crash', 'timeout'):
+                continue        # the garbage happened to look like an empty object in this process: not observable as a violation
             if key == 'C16.uninitialized_instance':
                 # stable texts, at most two per entry point class (method of the instance / instance as argument / iterator)
                 n_cat = uninit_seen.get(p['entry_point'], 0)
                 uninit_seen[p['entry_point']] = n_cat + 1
-                if n_cat >= 2:
+                if n_cat >= (1 if p['cls'] == 'PyTreeIter' else 2):
                     sink.counts[key] = sink.counts.get(key, 0) + 1
                     continue
+                # pybind11 hands the method a lazily allocated, never constructed object: what the read of that garbage does
+                # depends on the heap, so the text names the entry point (the exact expression is in data / script)
+                opname = '__next__' if p['cls'] == 'PyTreeIter' else p['expr']
                 if o.status == 'crash':
-                    what = f"uninitialized {p['cls']} instance: {p['expr']} crashed with signal {U.signum(o.detail)}"
+                    what = f"uninitialized {p['cls']} instance: {opname} crashed with signal {U.signum(o.detail)}"
                 elif o.status == 'timeout':
-                    what = f"uninitialized {p['cls']} instance: {p['expr']} hangs"
+                    what = f"uninitialized {p['cls']} instance: {opname} hangs"
                 else:
-                    what = f"uninitialized {p['cls']} instance: {p['expr']} returned a result instead of raising"
+                    what = f"uninitialized {p['cls']} instance: {opname} returned a result instead of raising"
                 sink.add(Finding(key=key, what=what, script=code, data={'case': cid, 'params': p, 'status': o.status}), cap=6)
                 continue
             if key == 'C16.malformed_pickle_state_crash' and o.confirmed_alone is not False:
